@@ -425,6 +425,39 @@ def _run_ladder(item, ctx, seed):
                                 ctx.fail("rate-equals-ratio-of-counts", dict(case, threshold=t, rate=r), observed=rv[k],
                                          expected=None if want is None else float(want))
                                 break
+        # the object after it has been *used*: bootstrap samples drawn from it (with and without smoothing, every method)
+        # and its own score arrays (views of them, reversed) handed back to it as thresholds - its matrices still count
+        if tie_free or n <= 300:
+            from score_analysis import BootstrapConfig
+            from score_analysis.roc_curve import roc
+
+            for cfg in ot.CFGS[1:3]:
+                su = Scores(np.array(pos[::-1]), np.array(neg[::-1]), nb_easy_pos=1, nb_easy_neg=2, score_class=cfg[0], equal_class=cfg[1])
+                case = {"ladder_n": n, "tie_free": tie_free, "cfg": cfg, "easy": [1, 2],
+                        "history": "bootstrap_sample x5 (smoothing / replacement / single_pass / proportion); roc, cm, rates and thresholds with views of its own arrays"}
+                st = np.random.get_state()
+                np.random.seed(seed + n)
+                try:
+                    for bc in (BootstrapConfig(smoothing=True), BootstrapConfig(sampling_method="replacement", stratified_sampling="by_label"),
+                               BootstrapConfig(sampling_method="single_pass"), BootstrapConfig(sampling_method="proportion", ratio=0.5),
+                               BootstrapConfig(sampling_method="dynamic", smoothing=True, stratified_sampling="by_label")):
+                        guarded(ctx, "bootstrap_sample", case, su.bootstrap_sample, bc)
+                    guarded(ctx, "bootstrap_ci", case, lambda: su.bootstrap_ci("eer", config=BootstrapConfig(nb_samples=3, smoothing=True)))
+                finally:
+                    np.random.set_state(st)
+                for call in (lambda: roc(su, thresholds=su.pos[::-1]), lambda: roc(su, thresholds=su.neg[::-2]), lambda: su.cm(su.neg[::-1]),
+                             lambda: su.tpr(su.pos[::-1]), lambda: su.threshold_at_fnr(np.linspace(1, 0, 7)), lambda: roc(su, thresholds=su.swap().pos[::-1]),
+                             lambda: su.swap().cm(su.pos[::-1])):
+                    guarded(ctx, "alias-call", case, call)
+                ok, mu = guarded(ctx, "cm-array", case, lambda: su.cm(Tarr).matrix.tolist())
+                ctx.state()
+                ctx.tick(len(T))
+                if ok:
+                    for k, t in enumerate(T):
+                        exp = refs.ref_cm_sorted(spos, sneg, t, cfg[0], cfg[1], 1, 2)
+                        if mu[k] != exp:
+                            ctx.fail("cm-equals-counting-after-use", dict(case, threshold=t), observed=mu[k], expected=exp)
+                            break
         # a long, unsorted threshold array (argument sizes are part of the ladder, too)
         if not tie_free:
             base_T = [t for t in T if t == t]
